@@ -5,9 +5,10 @@ import ast
 from collections import namedtuple
 
 from .. import paths
-from ..core import FUNC, call_attr, calls_in, dotted, norm, text, walk_local
+from ..core import FUNC, call_attr, calls_in, dotted, norm, text, walk_local, is_const
 
 EXPLANATION = [
+    "C04.shared-pool: Host.reset decides 'no dedicated LE buffers' on the values the controller returned (they are not rewritten before the test) and in that case makes the LE queue the very same object as the Classic queue: one pool, one counter.",
     'C04.dead-default-check: no value obtained by indexing a defaultdict attribute is afterwards tested for absence (`is None` / falsy): such a test is dead and the lookup has created the entry (drain() would wait on a fresh event nobody sets).',
     'C04.fifo: every deque of the anchored modules that is filled with append / extend is emptied with popleft or by iteration (never pop()), and conversely: queued entries come out in the order they went in.',
     'C04.one-shot: no name bound to a generator expression or to filter() / map() / zip() / reversed() / enumerate() is read in more than one consuming position or inside a loop that evaluates it repeatedly: such an iterator is empty after its first walk.',
@@ -593,7 +594,31 @@ def dead_default_check_rule(ctx):
     dead_default_check(ctx, 'C04.dead-default-check', ['bumble.host'])
 
 
+def shared_pool(ctx):
+    """A controller that reports no dedicated LE buffers (length or count 0) has ONE pool: the host then uses one queue object
+    for LE and Classic, so one counter limits the packets in flight.  Host.reset decides this on the values the controller
+    returned -- nothing rewrites them before the test -- and the shared branch aliases the queue."""
+    R, p = ctx.r, ctx.p
+    rule = 'C04.shared-pool'
+    fn = p.find('bumble.host.Host.reset')
+    if fn is None:
+        R.bad(rule, 'bumble.host.Host.reset', 'anchor missing')
+        return
+    branch = [n for n in walk_local(fn) if isinstance(n, ast.If) and any(isinstance(s_, ast.Assign) and dotted(s_.targets[0]) == 'self.le_acl_packet_queue' and norm(s_.value) == 'self.acl_packet_queue' for s_ in n.body + n.orelse)]
+    R.check(len(branch) == 1, rule, 'bumble.host.Host.reset | shared queue', 'one branch makes the LE queue the Classic queue object', f'{len(branch)} such branches', p.loc(fn))
+    if len(branch) != 1:
+        return
+    br = branch[0]
+    names = sorted({x.id for x in ast.walk(br.test) if isinstance(x, ast.Name)})
+    for nm in names:
+        writes = [s_ for s_ in walk_local(fn) if isinstance(s_, (ast.Assign, ast.AugAssign)) and any(isinstance(t, ast.Name) and t.id == nm for t in (s_.targets if isinstance(s_, ast.Assign) else [s_.target])) and s_.lineno < br.lineno]
+        ok = bool(writes) and all(isinstance(w, ast.Assign) and (is_const(w.value) or (isinstance(w.value, ast.Attribute) and (dotted(w.value) or '').startswith('response'))) for w in writes)
+        R.check(ok, rule, f'bumble.host.Host.reset | {nm}', 'the tested value is what the controller returned (or the initial constant)',
+                f'`{nm}` is rewritten before the "no dedicated LE buffers" test ({[norm(w)[:60] for w in writes if not (isinstance(w, ast.Assign) and (is_const(w.value) or (dotted(w.value) or "").startswith("response")))][:2]}): the shared pool then gets a second, independent queue and the host puts up to twice the advertised number of packets in flight', p.loc(br))
+
+
 RULES = [
+    ('C04.shared-pool', shared_pool),
     ('C04.dead-default-check', dead_default_check_rule),
     ('C04.fifo', fifo_rule),
     ('C04.one-shot', one_shot_rule),
